@@ -71,7 +71,7 @@ impl<const LIMBS: usize> Odd<Uint<LIMBS>> {
     ///
     /// Panics if the hex is malformed or not zero-padded accordingly for the size, or if the value is even.
     pub const fn from_le_hex(hex: &str) -> Self {
-        let uint = Uint::<LIMBS>::from_be_hex(hex);
+        let uint = Uint::<LIMBS>::from_le_hex(hex);
         assert!(uint.is_odd().is_true_vartime(), "number must be odd");
         Odd(uint)
     }
